@@ -150,15 +150,20 @@ def valid_histories(depth):
     return out
 
 
-def do_event(m, e):
+DUTY = [1, 0.55, 0.8, 0.3, 0.9, 0.65, 1, 0.45, 0.7, 0.95, 0.5, 0.85, 0.6, 1, 0.4, 0.75, 0.9, 0.35, 0.8, 0.5, 1, 1]
+
+
+def do_event(m, e, controlled=False):
+    """controlled: a scripted rule proposes a different duty cycle at every instant"""
     n = len(m.elements)
+    duty = DUTY if controlled else None
     if e == 'R3':
-        m.run(DT, [DT[0] * 3, 'sec'])
+        m.run(DT, [DT[0] * 3, 'sec'], duty=duty)
     elif e == 'R2':
-        m.run(DT, [DT[0] * 2, 'sec'])
+        m.run(DT, [DT[0] * 2, 'sec'], duty=duty)
     elif e == 'RS':
         cur = si.q_si(m.elements[-1].angular_position)
-        m.run(DT, [DT[0] * 4, 'sec'], stop=sim.make_stop(m, ['encoder', n - 1, '>=', [cur + 1e-4, 'rad']]))
+        m.run(DT, [DT[0] * 4, 'sec'], duty=duty, stop=sim.make_stop(m, ['encoder', n - 1, '>=', [cur + 1e-4, 'rad']]))
     elif e == 'RM':
         # the user declares every mating of the chain again (same partners, same parameters)
         for i, link in enumerate(m.spec['links']):
@@ -231,7 +236,7 @@ def check_history(acc, cfg, hosting, cur, hist, tmp):
     acc.executions += 1
     for step, e in enumerate(hist):
         try:
-            do_event(m, e)
+            do_event(m, e, controlled=cur)
             err = None
         except Exception as ex:
             err = (type(ex).__name__, str(ex)[:160])
